@@ -167,8 +167,9 @@ func (t *basicTaskBase) startBasicTask() (err error) {
 		_, errStderr = io.Copy(stderr, stderrIn)
 	}()
 
+	// taken here and not inside the goroutine: Kill() sets t.taskCmd to nil
+	taskCmd := t.taskCmd
 	go func() {
-		taskCmd := t.taskCmd
 		err = taskCmd.Wait()
 		// ^ when this unblocks, the task is done
 
